@@ -137,9 +137,7 @@ def split_top(text, sep=",", angle=False):
 def statements(body):
     """Top-level statements of a block body."""
     res, start = [], 0
-    pending_block_end = None
-    idx = list(scan(body))
-    for i, c, d in idx:
+    for i, c, d in scan(body):
         if d == 0 and c == ";":
             res.append(body[start:i + 1])
             start = i + 1
@@ -785,7 +783,7 @@ class Extract:
             for k in info.get("aux", []):
                 seen.add(k)
         for key, (pk, pinfo) in printers.items():
-            if key not in seen and not any(key in r.get("aux", []) for r in []):
+            if key not in seen:
                 rows.append({"key": key, "field": pinfo.get("field"), "printer": pk, "reader": "RUnknown", "cli": "CNone",
                              "why": ["printed by to_toml but never read by from_config_file"]})
         cli_only = sorted(f for f in cli if f not in {r["field"] for r in rows})
